@@ -139,3 +139,80 @@ def positive_example(ctx, rule):
     from .mini import must_fire
     must_fire(ctx, rule, POSITIVE, lambda sub, mp: instance_memo_rule(sub, rule, [mp.classes["m.S"]], "example"),
               "instance attribute filled on demand and never refreshed")
+
+
+def module_memo_rule(ctx, rule: str, modules, what: str):
+    """The same discipline for values remembered at module level: a function that both reads and writes a module-level container G
+    (or rebinds a `global`) keeps a result across calls.  Whatever the remembered value was computed from must be compared *itself*
+    with what was stored before the value is reused - a guard on something derived from an argument (a length, a shape) cannot
+    tell two different arguments apart, and an identity test on a mutable argument cannot see that it changed in place (reported
+    for arguments that are objects with in-place mutators only when the guard is the only protection - not decided here)."""
+    from .rules.fc import local_assignments, substitute_defs
+    p = ctx.program
+    n_funcs = n_memos = 0
+    for m in modules:
+        gl = {t.id for st in m.tree.body if isinstance(st, (ast.Assign, ast.AnnAssign))
+              for t in (st.targets if isinstance(st, ast.Assign) else [st.target]) if isinstance(t, ast.Name)}
+        for f in [f for f in p.all_functions if f.module is m and isinstance(f.node, (ast.FunctionDef, ast.AsyncFunctionDef))]:
+            n_funcs += 1
+            params = set(f.params) - {"self", "cls"}
+            declared = {n_ for st in ast.walk(f.node) if isinstance(st, ast.Global) for n_ in st.names}
+            local_names = {t.id for st in ast.walk(f.node) if isinstance(st, (ast.Assign, ast.AnnAssign, ast.AugAssign))
+                           for t in (st.targets if isinstance(st, ast.Assign) else [st.target]) if isinstance(t, ast.Name)} - declared
+            writes = []
+            for st in ast.walk(f.node):
+                if isinstance(st, (ast.Assign, ast.AugAssign)):
+                    for t in (st.targets if isinstance(st, ast.Assign) else [st.target]):
+                        base = t
+                        while isinstance(base, ast.Subscript):
+                            base = base.value
+                        if isinstance(base, ast.Name) and base.id in gl and base.id not in local_names and (
+                                base is not t or base.id in declared):
+                            writes.append((base.id, st, st.value))
+                elif isinstance(st, ast.Expr) and isinstance(st.value, ast.Call) and isinstance(st.value.func, ast.Attribute) \
+                        and st.value.func.attr in ("update", "append", "setdefault", "__setitem__", "extend") \
+                        and isinstance(st.value.func.value, ast.Name) and st.value.func.value.id in gl \
+                        and st.value.func.value.id not in local_names and st.value.args:
+                    writes.append((st.value.func.value.id, st, ast.Tuple(elts=list(st.value.args), ctx=ast.Load())))
+            for g, st, value in writes:
+                reads = [n for n in ast.walk(f.node) if isinstance(n, ast.Name) and n.id == g and isinstance(n.ctx, ast.Load)
+                         and not any(n is x for x in ast.walk(st))]
+                if not reads or isinstance(value, ast.Constant):
+                    continue
+                n_memos += 1
+                ve = substitute_defs(f.node, value, params | {g})
+                dep_params = {n.id for n in ast.walk(ve) if isinstance(n, ast.Name) and n.id in params}
+                # names that hold (parts of) what was stored
+                la = local_assignments(f.node)
+                from_g = {g} | {nm for nm, ds in la.items() if any(
+                    d[0] in ("assign", "unpack") and any(isinstance(x, ast.Name) and x.id == g for x in ast.walk(d[1])) for d in ds)}
+                guards = [t.test for t in ast.walk(f.node) if isinstance(t, (ast.If, ast.IfExp)) and any(
+                    isinstance(x, ast.Name) and x.id in from_g for x in ast.walk(t.test))]
+                problems = []
+                for pn in sorted(dep_params):
+                    ok = any(isinstance(c, ast.Compare) and any(isinstance(o, (ast.Is, ast.IsNot, ast.Eq, ast.NotEq, ast.In, ast.NotIn)) for o in c.ops)
+                             and any(isinstance(s_, ast.Name) and s_.id == pn for s_ in [c.left] + list(c.comparators))
+                             for t in guards for c in ast.walk(t))
+                    if not ok:
+                        problems.append(f"it is computed from the argument `{pn}` but reused without comparing `{pn}` itself with what was "
+                                        "stored: a later call with a different argument gets the value of the earlier one")
+                cname = f"{f.qualname}[module-level {g}]"
+                if problems:
+                    ctx.bad(rule, cname, f"`{g}` keeps a result across calls: " + "; ".join(problems), f.loc(st),
+                            derived=ast.unparse(st)[:140], required="key the remembered value on every argument it depends on, or recompute")
+                else:
+                    ctx.ok(rule, cname, "value remembered across calls is keyed on every argument it was computed from", f.loc(st))
+    ctx.ok(rule, f"<{what}: values remembered at module level inspected>",
+           f"{n_funcs} functions inspected, {n_memos} module-level memo(s) found and judged")
+    return n_memos
+
+
+POSITIVE_MODULE = {"m.py": "_last = [None, 0, None]\n\n\ndef resample(spectrum, frequencies):\n    source, n, result = _last\n"
+                           "    if source is not spectrum or n != len(frequencies):\n        result = spectrum.interp(frequencies)\n"
+                           "        _last[:] = [spectrum, len(frequencies), result]\n    return result\n"}
+
+
+def positive_module_example(ctx, rule):
+    from .mini import must_fire
+    must_fire(ctx, rule, POSITIVE_MODULE, lambda sub, mp: module_memo_rule(sub, rule, list(mp.modules.values()), "example"),
+              "module-level value reused on a guard derived from the argument")
